@@ -19,3 +19,186 @@ Qed.
 
 Lemma mem_false t l : mem t l = false <-> ~ In t l.
 Proof. rewrite <- mem_In. destruct (mem t l); split; intros; congruence. Qed.
+
+(* ---------- list-level checks ---------- *)
+Lemma has_dup_NoDup l : has_dup l = false <-> NoDup l.
+Proof.
+  induction l as [|x l IH]; cbn; split; intros H; try constructor; auto.
+  - apply orb_false_iff in H as [H1 H2]. now apply mem_false.
+  - apply orb_false_iff in H as [H1 H2]. now apply IH.
+  - inversion H as [|? ? Hn Hd]; subst. apply orb_false_iff. split; [now apply mem_false|now apply IH].
+Qed.
+
+Lemma chk_dup_param_spec f : chk_dup_param f = false <-> NoDup (map TUser (fparams f)).
+Proof. apply has_dup_NoDup. Qed.
+
+Lemma chk_dup_provider_spec f : chk_dup_provider f = false <-> NoDup (flat_map fouts (funcs f)).
+Proof. apply has_dup_NoDup. Qed.
+
+Lemma existsb_false {A} (p : A -> bool) l : existsb p l = false <-> forall x, In x l -> p x = false.
+Proof.
+  induction l as [|y l IH]; cbn; split; intros H; auto.
+  - tauto.
+  - apply orb_false_iff in H as [H1 H2]. intros x [->|Hx]; auto. now apply IH.
+  - apply orb_false_iff. split; [apply H; now left|apply IH; intros; apply H; now right].
+Qed.
+
+Lemma chk_invoke_spec f :
+  chk_no_output f = false /\ chk_invoke_outputs f = false <->
+  forall t, In t (ftasks f) -> (touts t = [] <-> tinvoke t = true).
+Proof.
+  unfold chk_no_output, chk_invoke_outputs. rewrite !existsb_false. split.
+  - intros [H1 H2] t Ht. specialize (H1 t Ht). specialize (H2 t Ht).
+    destruct (touts t), (tinvoke t); cbn in *; split; intros; try discriminate; auto.
+  - intros H. split; intros t Ht; specialize (H t Ht); destruct (touts t), (tinvoke t); cbn; auto;
+      destruct H as [A B]; try (discriminate (A eq_refl)); try (discriminate (B eq_refl)).
+Qed.
+
+Lemma received_spec f t : received f t = true <-> In t (consumed f).
+Proof.
+  unfold received, consumed. rewrite orb_true_iff, mem_In, in_app_iff, existsb_exists, in_flat_map.
+  split; intros [H|H]; auto.
+  - right. destruct H as (x & Hx & E). exists x. split; [exact Hx|now apply mem_In].
+  - right. destruct H as (x & Hx & E). exists x. split; [exact Hx|now apply mem_In].
+Qed.
+
+Lemma chk_unused_output_spec f :
+  chk_unused_output f = false <-> forall o, In o (flat_map fouts (funcs f)) -> In o (consumed f).
+Proof.
+  unfold chk_unused_output. rewrite existsb_false. split.
+  - intros H o Ho. apply in_flat_map in Ho as (x & Hx & Hox). specialize (H x Hx).
+    rewrite existsb_false in H. specialize (H o Hox). apply negb_false_iff in H. now apply received_spec.
+  - intros H x Hx. apply existsb_false. intros o Ho. apply negb_false_iff. apply received_spec.
+    apply H. apply in_flat_map. eauto.
+Qed.
+
+(* ---------- the cycle search ---------- *)
+Section Cycle.
+  Variable f : flow.
+  Notation U := (all_types f).
+
+  Lemma provider_from_some i fs t j : provider_from i fs t = Some j ->
+    i <= j /\ j < i + length fs /\ mem t (fprov (nth (j - i) fs fn0)) = true.
+  Proof.
+    revert i. induction fs as [|x fs IH]; intros i H; cbn in H; [discriminate|].
+    destruct (provider_from (S i) fs t) as [k|] eqn:E.
+    - injection H as <-. destruct (IH _ E) as (A & B & C). cbn [length]. split; [lia|]. split; [lia|].
+      replace (k - i) with (S (k - S i)) by lia. exact C.
+    - destruct (mem t (fprov x)) eqn:M; [|discriminate]. injection H as <-. cbn [length].
+      split; [lia|]. split; [lia|]. rewrite Nat.sub_diag. exact M.
+  Qed.
+
+  Lemma provider_in_U t i : provider f t = Some i -> In t U /\ i < length (funcs f).
+  Proof.
+    unfold provider. intros H. destruct (provider_from_some _ _ _ _ H) as (_ & B & C).
+    rewrite Nat.sub_0_r in C. split; [|lia]. apply mem_In in C.
+    unfold all_types. apply in_or_app. right. apply in_or_app. right. apply in_flat_map.
+    exists (nth i (funcs f) fn0). split; [apply nth_In; lia|]. apply in_or_app. now right.
+  Qed.
+
+  Lemma succs_in_U t d : In d (succs f t) -> In d U /\ exists i, provider f t = Some i.
+  Proof.
+    unfold succs. destruct (provider f t) as [i|] eqn:E; [|contradiction]. intros H.
+    destruct (provider_in_U _ _ E) as [_ Li]. split; [|eauto].
+    unfold all_types. apply in_or_app. right. apply in_or_app. right. apply in_flat_map.
+    exists (nth i (funcs f) fn0). split; [apply nth_In; exact Li|]. apply in_or_app. now left.
+  Qed.
+
+  (* the current search path, newest first: each element needs the one before it *)
+  Fixpoint chain (path : list ty) (t : ty) : Prop :=
+    match path with [] => True | p :: rest => In t (succs f p) /\ chain rest p end.
+
+  Lemma chain_reaches path t x : chain path t -> In x path -> needs_plus f x t.
+  Proof.
+    revert t. induction path as [|p rest IH]; intros t Hc Hx; [destruct Hx|].
+    destruct Hc as [Ht Hr]. destruct Hx as [->|Hx].
+    - now apply np_one.
+    - specialize (IH p Hr Hx). clear - IH Ht.
+      induction IH as [a b Hab|a b c0 Hab Hbc IH2].
+      + eapply np_step; [exact Hab|now apply np_one].
+      + eapply np_step; [exact Hab|]. apply IH2. exact Ht.
+  Qed.
+
+  Lemma dfs_sound fuel : forall path t,
+    dfs f fuel path t = true -> chain path t -> NoDup path -> incl path U ->
+    length U < length path + fuel -> exists x, needs_plus f x x.
+  Proof.
+    induction fuel as [|fuel IH]; intros path t H Hc Hn Hi Hl; cbn in H;
+      destruct (provider f t) as [i|] eqn:Ep; try discriminate.
+    - destruct (mem t path) eqn:M.
+      + apply mem_In in M. exists t. eapply chain_reaches; eauto.
+      + pose proof (NoDup_incl_length Hn Hi). lia.
+    - destruct (mem t path) eqn:M.
+      + apply mem_In in M. exists t. eapply chain_reaches; eauto.
+      + apply existsb_exists in H as (d & Hd & Hdfs).
+        apply (IH (t :: path) d Hdfs).
+        * split; [|exact Hc]. unfold succs. rewrite Ep. exact Hd.
+        * constructor; [now apply mem_false|exact Hn].
+        * intros x [->|Hx]; [apply (provider_in_U _ _ Ep)|now apply Hi].
+        * cbn [length]. lia.
+  Qed.
+
+  Lemma dfs_false_notin fuel path d :
+    dfs f fuel path d = false -> provider f d <> None -> ~ In d path.
+  Proof.
+    intros H Hp Hin. apply mem_In in Hin.
+    destruct fuel; cbn [dfs] in H; destruct (provider f d); try congruence; rewrite Hin in H; discriminate.
+  Qed.
+
+  Lemma dfs_complete fuel : forall path t,
+    dfs f fuel path t = false -> (forall p, In p path -> provider f p <> None) ->
+    forall x, needs_plus f t x -> ~ needs_plus f x x /\ ~ In x (t :: path).
+  Proof.
+    induction fuel as [|fuel IH]; intros path t H Hp x Hx; cbn in H;
+      destruct (provider f t) as [i|] eqn:Ep.
+    - destruct (mem t path); discriminate.
+    - exfalso. inversion Hx as [a b Hab|a b c0 Hab Hbc]; subst; unfold succs in Hab; rewrite Ep in Hab; destruct Hab.
+    - destruct (mem t path) eqn:M; [discriminate|]. apply mem_false in M.
+      rewrite existsb_false in H.
+      assert (Hp' : forall p, In p (t :: path) -> provider f p <> None)
+        by (intros p [->|Hin]; [congruence|now apply Hp]).
+      (* every direct need d of t is clean *)
+      assert (Hd : forall d, In d (succs f t) ->
+                 (forall y, needs_plus f d y -> ~ needs_plus f y y /\ ~ In y (d :: t :: path)) /\ ~ In d (t :: path)).
+      { intros d Hd. unfold succs in Hd. rewrite Ep in Hd. specialize (H d Hd).
+        split; [intros y Hy; apply (IH (t :: path) d H Hp' y Hy)|].
+        intros Hin. apply (dfs_false_notin _ _ _ H); [now apply Hp'|exact Hin]. }
+      (* x is reached through one of them *)
+      assert (Hvia : exists d, In d (succs f t) /\ (x = d \/ needs_plus f d x)).
+      { inversion Hx as [a b Hab|a b c0 Hab Hbc]; subst; eauto. }
+      destruct Hvia as (d & Hdt & Hdx). destruct (Hd d Hdt) as [Hclean Hnd].
+      assert (Hxt : x <> t -> ~ In x (t :: path)).
+      { intros Hne Hin. destruct Hdx as [->|Hdx]; [now apply Hnd|].
+        destruct (Hclean x Hdx) as [_ A]. apply A. now right. }
+      assert (Hnc : ~ needs_plus f x x).
+      { destruct Hdx as [->|Hdx]; [|apply (Hclean x Hdx)].
+        intros Hc. (* d on a cycle: then d reaches d, which the search from d excludes *)
+        destruct (Hclean d Hc) as [A _]. now apply A. }
+      split; [exact Hnc|]. intros Hin.
+      destruct (ty_eqb x t) eqn:E.
+      + apply ty_eqb_eq in E. subst x. (* t reaches t: t is reached from d *)
+        destruct Hdx as [->|Hdx]; [apply Hnd; now left|].
+        destruct (Hclean t Hdx) as [_ A]. apply A. right. now left.
+      + apply Hxt; [|exact Hin]. intros ->. rewrite ty_eqb_refl in E. discriminate.
+    - exfalso. inversion Hx as [a b Hab|a b c0 Hab Hbc]; subst; unfold succs in Hab; rewrite Ep in Hab; destruct Hab.
+  Qed.
+
+  Theorem chk_cycle_spec : chk_cycle f = false <-> forall t, ~ needs_plus f t t.
+  Proof.
+    unfold chk_cycle. split.
+    - intros H t Hc. rewrite existsb_false in H.
+      (* t is needed by its predecessor on the cycle, hence a dependency of some function *)
+      assert (Hpre : exists y, In t (succs f y)).
+      { clear H. assert (G : forall a b, needs_plus f a b -> exists y, In b (succs f y)).
+        { intros a b Hab. induction Hab as [a b Hab|a b c0 Hab Hbc IH]; eauto. }
+        eapply G; eauto. }
+      destruct Hpre as (y & Hy). unfold succs in Hy. destruct (provider f y) as [i|] eqn:Ep; [|destruct Hy].
+      destruct (provider_in_U _ _ Ep) as [_ Li].
+      specialize (H (nth i (funcs f) fn0) (nth_In _ _ Li)). rewrite existsb_false in H. specialize (H t Hy).
+      destruct (dfs_complete _ [] t H ltac:(intros p []) t Hc) as [A _]. now apply A.
+    - intros Hac. apply existsb_false. intros x Hx. apply existsb_false. intros d Hd.
+      destruct (dfs f (S (length U)) [] d) eqn:E; [exfalso|reflexivity].
+      destruct (dfs_sound _ [] d E I (NoDup_nil _) (incl_nil_l _) ltac:(cbn; lia)) as (z & Hz).
+      now apply (Hac z).
+  Qed.
+End Cycle.
